@@ -262,6 +262,23 @@ def handle (sess : Sess) (rep : Report) (ln : Nat) (toks : List String) (obs : S
         if mine == obs then ({ sess with model := some s2, mon := mon }, rep)
         else ({ sess with model := none, mon := mon },
               { rep.msg s!"DIVERGE line={ln} model={mine} impl={obs}" with diverged := rep.diverged + 1 })
+  | "rrjump" :: rest =>
+    -- stand-in for d round-robin BIND calls picked and completed (the harness advances the cursor by d): the
+    -- model's cursor and the monitor's count of BIND picks advance by d; everything else is as before
+    if !sess.active then (sess, rep.bump "pool.skipped_after_divergence") else
+    if obs == "bad-op" then (sess, rep) else
+    match (arg (args rest) "d").toNat? with
+    | none => (sess, rep.msg s!"BAD line={ln}")
+    | some d =>
+      let rep := rep.bump "pool.rr_cursor_fast_forward"
+      let mon := { sess.mon with nBind := sess.mon.nBind + d }
+      match sess.model with
+      | none => ({ sess with mon := mon }, rep)
+      | some s =>
+        let s' := { s with rr := (s.rr + d) % 2^64 }
+        let mine := "ok ; " ++ digest s'
+        if mine == obs then ({ sess with model := some s', mon := mon }, rep)
+        else ({ sess with model := none, mon := mon }, { rep.msg s!"DIVERGE line={ln} model={mine} impl={obs}" with diverged := rep.diverged + 1 })
   | ["other"] =>
     -- another channel of the process builds its own balancer: this one is untouched
     if !sess.active then (sess, rep.bump "pool.skipped_after_divergence") else
@@ -482,7 +499,7 @@ def handle (sess : Sess) (rep : Report) (ln : Nat) (toks : List String) (obs : S
          if sess.model.isSome then { rep.msg s!"DIVERGE line={ln} model={shown.take 300} impl={obs.take 300}" with diverged := rep.diverged + 1 } else rep)
     | _, _ => (sess, rep.msg s!"BAD line={ln}")
   | "pick2" :: rest =>
-    -- two plain picks on one picker, run concurrently by the harness while it stalls the balancer
+    -- two picks, on one picker or on two (F31), run concurrently by the harness while it stalls the balancer
     -- lock: the model must explain the outcome by *some* order of two atomic picks (C02)
     if !sess.active then (sess, rep.bump "pool.skipped_after_divergence") else
     let a := args rest
@@ -501,6 +518,7 @@ def handle (sess : Sess) (rep : Report) (ln : Nat) (toks : List String) (obs : S
       let resB := resOf "b:"
       let implEvents := parts.filter fun e => !(e.startsWith "a:" || e.startsWith "b:" || e.startsWith "dg ")
       let rep := rep.bump "pool.concurrent_pick_pair"
+      let rep := if pn2 != pn then rep.bump (if method == "plain" then "pool.concurrent_plain_picks_on_two_pickers" else "pool.concurrent_keyed_picks_on_two_pickers") else rep
       -- the two sequential explanations
       let explain (first second : Op) (tagF tagS : String) : Option (St × St × List String × List String × String) :=
         match sess.model with
